@@ -252,6 +252,7 @@ type Facts struct {
 	// Tested holds every branch atom on the dominating edges, killed or not:
 	// "this condition was tested with this outcome on every path to here".
 	Tested []*Atom
+	depth  int
 }
 
 // WasTested: the requirement matched a dominating branch outcome (possibly stale).
@@ -271,16 +272,12 @@ func (fi *FuncInfo) FactsAt(in ssa.Instruction) *Facts {
 		as := atomsOf(cs, ef.Pos)
 		// a materialised short-circuit condition (`ok := a && b; if !ok {...}`): the literals its
 		// formula forces under this outcome
-		if cv, neg := stripNot(ef.Cond); isBoolPhi(cv) {
+		if cv, neg := stripNot(ef.Cond); isBoolPhi(cv) || fi.isHelperCall(cv) {
 			if bf := fi.valueBF(cv, 0); bf != nil {
-				as = nil
 				for _, lt := range forcedLiterals(bf, ef.Pos != neg) {
 					if lt.atom.Src != nil {
 						as = append(as, atomsOf(lt.atom.Src, lt.atom.SrcPos == lt.pos)...)
 					}
-				}
-				if len(as) == 0 {
-					as = atomsOf(cs, ef.Pos)
 				}
 			}
 		}
@@ -712,4 +709,39 @@ func forcedLiterals(f *BF, val bool) []bfLiteral {
 		}
 	}
 	return nil
+}
+
+// isHelperCall: a call of a pure boolean helper whose body is available as a formula.
+func (fi *FuncInfo) isHelperCall(v ssa.Value) bool {
+	call, ok := v.(*ssa.Call)
+	if !ok {
+		return false
+	}
+	callee := call.Common().StaticCallee()
+	return callee != nil && fi.P.helperBF(callee) != nil
+}
+
+// conjLiterals: f (under value val) as a conjunction of literals; complete=false if it is not one.
+func conjLiterals(f *BF, val bool) (lits []bfLiteral, complete bool) {
+	switch f.Op {
+	case 'a':
+		return []bfLiteral{{f.Atom, val}}, true
+	case '!':
+		return conjLiterals(f.Kids[0], !val)
+	case 'c':
+		return nil, f.Val == val
+	case '&', '|':
+		if (f.Op == '&') != val {
+			return nil, false
+		}
+		for _, k := range f.Kids {
+			l, ok := conjLiterals(k, val)
+			if !ok {
+				return nil, false
+			}
+			lits = append(lits, l...)
+		}
+		return lits, true
+	}
+	return nil, false
 }
